@@ -145,7 +145,9 @@ def wrap_with_decoy(tap_path, decoy, wd):
         n = tap[i] | (tap[i + 1] << 8)
         blocks.append(tap[i + 2:i + 2 + n])
         i += 2 + n
-    hdr = bytes((0x00, 0x03)) + b'decoy     ' + _word(decoy['len']) + _word(decoy['addr']) + _word(0x8000)
+    # tap2sna chooses LOAD "" or LOAD ""CODE from the first header on the tape: a decoy placed first carries the type of
+    # the real first header (a BASIC program), otherwise it would change the command that is simulated
+    hdr = bytes((0x00, 0x00 if decoy['pos'] == 0 else 0x03)) + b'decoy     ' + _word(decoy['len']) + _word(decoy['addr']) + _word(0x8000)
     par = 0
     for b in hdr:
         par ^= b
